@@ -307,12 +307,18 @@ func dayOf(ts int64) int64 { return gen.DayStart(ts) }
 // violation was reported. actions / classes attribute differences to plan decisions.
 func checkContent(c *fw.Case, phase, path string, want Side, pl Plan, witness func() string) bool {
 	ok := true
+	// signature part: the plan's action for the day; the class (completeness / overwrite) goes into the detail
 	actionOf := func(ifc string, day int64) string {
-		k := key(ifc, day)
-		if a, found := pl.Actions[k]; found {
-			return string(a) + "|" + pl.Classes[k]
+		if a, found := pl.Actions[key(ifc, day)]; found {
+			return string(a)
 		}
 		return "untouched"
+	}
+	classOf := func(ifc string, day int64) string {
+		if cls, found := pl.Classes[key(ifc, day)]; found {
+			return " [" + cls + "]"
+		}
+		return ""
 	}
 	// ---- metadata view
 	got, strays, err := readMeta(path)
@@ -329,22 +335,22 @@ func checkContent(c *fw.Case, phase, path string, want Side, pl Plan, witness fu
 			act := actionOf(ifc, day)
 			g, found := got[ifc][day]
 			if !found {
-				c.Violatef(phase+"|day_missing|"+act, "expected day %s/%d (%d blocks) is not in the destination\n%s", ifc, day, len(blocks), witness())
+				c.Violatef(phase+"|day_missing|"+act, "expected day %s/%d%s (%d blocks) is not in the destination\n%s", ifc, day, classOf(ifc, day), len(blocks), witness())
 				ok = false
 				continue
 			}
 			w := wantMeta(blocks)
 			if fmt.Sprint(g.TS) != fmt.Sprint(w.TS) {
-				c.Violatef(phase+"|block_timestamps|"+act, "day %s/%d: block timestamps %v, expected %v\n%s", ifc, day, rel(g.TS, day), rel(w.TS, day), witness())
+				c.Violatef(phase+"|block_timestamps|"+act, "day %s/%d%s: block timestamps %v, expected %v\n%s", ifc, day, classOf(ifc, day), rel(g.TS, day), rel(w.TS, day), witness())
 				ok = false
 				continue
 			}
 			if fmt.Sprint(g.Traffic) != fmt.Sprint(w.Traffic) {
-				c.Violatef(phase+"|block_traffic_metadata|"+act, "day %s/%d: per-block {v4,v6,drops} %v, expected %v\n%s", ifc, day, g.Traffic, w.Traffic, witness())
+				c.Violatef(phase+"|block_traffic_metadata|"+act, "day %s/%d%s: per-block {v4,v6,drops} %v, expected %v\n%s", ifc, day, classOf(ifc, day), g.Traffic, w.Traffic, witness())
 				ok = false
 			}
 			if g.Totals != w.Totals {
-				c.Violatef(phase+"|day_totals|"+act, "day %s/%d: day totals %+v, expected %+v\n%s", ifc, day, g.Totals, w.Totals, witness())
+				c.Violatef(phase+"|day_totals|"+act, "day %s/%d%s: day totals %+v, expected %+v\n%s", ifc, day, classOf(ifc, day), g.Totals, w.Totals, witness())
 				ok = false
 			}
 			if act == "untouched" {
@@ -431,26 +437,11 @@ func checkCounts(c *fw.Case, phase string, got, want Counts, dry bool, witness f
 	if got == want {
 		return
 	}
-	var fields []string
-	if got.Interfaces != want.Interfaces {
-		fields = append(fields, "interfaces")
+	cls := "conflicts"
+	if got.Interfaces != want.Interfaces || got.Copied != want.Copied || got.Rebuilt != want.Rebuilt || got.Skipped != want.Skipped {
+		cls = "days"
 	}
-	if got.Copied != want.Copied {
-		fields = append(fields, "copied")
-	}
-	if got.Rebuilt != want.Rebuilt {
-		fields = append(fields, "rebuilt")
-	}
-	if got.Skipped != want.Skipped {
-		fields = append(fields, "skipped")
-	}
-	if got.ConflictsDst != want.ConflictsDst {
-		fields = append(fields, "conflicts_dst")
-	}
-	if got.ConflictsSrc != want.ConflictsSrc {
-		fields = append(fields, "conflicts_src")
-	}
-	c.Violatef(phase+"|counts|"+strings.Join(fields, "+"), "reported {interfaces copied rebuilt skipped conflicts_by_dst conflicts_by_src} = %+v, actions of the plan = %+v\n%s", got, want, witness())
+	c.Violatef(phase+"|counts|"+cls, "reported {interfaces copied rebuilt skipped conflicts_by_dst conflicts_by_src} = %+v, actions of the plan = %+v\n%s", got, want, witness())
 }
 
 // ---------------------------------------------------------------------------------------------
